@@ -270,6 +270,8 @@ pub fn handle_srandmember(storage: &Arc<StorageEngine>, db: usize, parts: &[Resp
         match &parts[2] {
             RespFrame::BulkString(Some(bytes)) => {
                 match String::from_utf8_lossy(bytes).parse::<i64>() {
+                    // Same range as Redis: a reply of more than i64::MAX / 2 elements is refused
+                    Ok(n) if n < -(i64::MAX / 2) => return Ok(RespFrame::error("ERR value is out of range")),
                     Ok(n) => Some(n),
                     Err(_) => return Ok(RespFrame::error("ERR value is not an integer or out of range")),
                 }
